@@ -57,7 +57,7 @@ def run(ck):
     if not exe2: return
     q = ck.tier == "quick"
     st = []
-    for (ini, np_, nw, units) in [(0, 1, 1, 20000), (0, 4, 4, 5000), (3, 2, 7, 702), (0, 8, 2, 1000), (5, 3, 5, 1000), (1, 16, 1, 500)] + ([] if q else [(0, 32, 32, 20000), (7, 13, 3, 3002), (0, 64, 64, 2000)]):
+    for (ini, np_, nw, units) in [(0, 1, 1, 20000), (0, 4, 4, 5000), (3, 2, 7, 702), (0, 8, 2, 1000), (5, 3, 5, 1000), (1, 16, 1, 500)] + ([] if q else [(0, 32, 32, 4000), (7, 13, 3, 3002), (0, 64, 64, 1000)]):
         assert (ini + np_ * units) % nw == 0
         for sig in (0, 1):
             st.append("stress %d %d %d %d %d %d" % (ini, np_, nw, units, sig, ck.seed + len(st)))
@@ -66,4 +66,4 @@ def run(ck):
     if not q: st += ["timeout 0 4294967295 1", "timeout 2 3000000000 0"]
     for l in st: ck.hist("real-" + l.split()[0])
     ck.sample(st[:2])
-    ck.kcompare("s", exe2, "c17", [st], keep_head=0, timeout=600, corpus_prefix="real", what="the real semaphore under threads and signals does not behave as the abstract counter predicts")
+    ck.kcompare("s", exe2, "c17", [st], keep_head=0, timeout=3600, corpus_prefix="real", what="the real semaphore under threads and signals does not behave as the abstract counter predicts")
